@@ -113,6 +113,15 @@ let dispatch name =
   | "obj_reparam_all" ->
     let o = robj () in let rs = rlist (fun () -> let s = rq () in let e = rq () in (s, e)) in
     pres pobj (Exec.q_obj_reparam_all o rs)
+  | "obj_translate" -> let o = robj () in let x = rqlist () in pres pobj (Exec.q_obj_translate o x)
+  | "obj_scale" -> let o = robj () in let x = rqlist () in pres pobj (Exec.q_obj_scale o x)
+  | "obj_rotate" ->
+    let o = robj () in let ch = rq () in let sh = rq () in let nrm = rqlist () in let inv = rq () in
+    pres pobj (Exec.q_obj_rotate o ch sh nrm inv)
+  | "obj_mirror" -> let o = robj () in let nrm = rqlist () in let inv = rq () in pres pobj (Exec.q_obj_mirror o nrm inv)
+  | "obj_project" -> let o = robj () in let keep = rlist rbool in pobj (Exec.q_obj_project o keep)
+  | "obj_set_dimension" -> let o = robj () in let d = rnat () in pobj (Exec.q_obj_set_dimension o d)
+  | "obj_force_rational" -> let o = robj () in pobj (Exec.q_obj_force_rational o)
   | _ -> out ("UNKNOWN " ^ name)
 
 let () =
